@@ -62,14 +62,19 @@ try:
         print("check %s: exit=%d %s" % (c, r.returncode, clauses[:4]))
     out = os.path.join("/verif/seeded", name)
     os.makedirs(out, exist_ok=True)
-    shutil.copy(patch, out + "/patch.diff")
-    shutil.copy(demo, out + "/demo.py")
+    if os.path.realpath(os.path.dirname(patch)) != os.path.realpath(out):
+        shutil.copy(patch, out + "/patch.diff")
+        shutil.copy(demo, out + "/demo.py")
     old = {}
     if os.path.exists(out + "/meta.json"):
         old = json.load(open(out + "/meta.json"))
-    for k in ("needs", "breaks", "source"):
+    for k in ("needs", "breaks", "source", "history"):
         if k in old and not meta.get(k):
             meta[k] = old[k]
+    # keep the record of earlier runs of the checks (before a check was strengthened)
+    if old.get("checks_run") and old.get("checks_run") != meta["checks_run"]:
+        meta.setdefault("history", old.get("history", []))
+        meta["history"].append({"earlier_checks_run": old["checks_run"]})
     json.dump(meta, open(out + "/meta.json", "w"), indent=1)
 finally:
     subprocess.run(["git", "-C", "/repo", "worktree", "remove", "--force", d + "/wt"], capture_output=True)
